@@ -129,21 +129,34 @@ def ret_hfc(c):
 contract(f"{CK}.has_full_config", scenarios=hfc_scenarios(), returns=ret_hfc,
     ensures={"true_iff_both_configs_have_targets": lambda c, q: z3.BoolVal(bool(c.result) == c.want)})
 
-def setup_load(I):
-    vimod = I.load_module("mdpax.solvers.value_iteration").globals; cls = vimod["ValueIteration"]
-    I.ghost["effects"] = []
-    s = Obj(cls, {"values": ("own", "values"), "policy": ("own", "policy"), "iteration": z3.Int("own_iteration"), "checkpoint_dir": I.PathV("own_dir")}, label="hand_built_solver")
-    given = z3.Bool("step_given"); step = z3.Int("step_arg"); I.assume(step >= 1)
-    use_step = I.truth(given)
-    return Ctx(self=s, _args=[I.PathV("other_dir")], _kwargs=({"step": step} if use_step else {}), I=I, use_step=use_step, step=step)
+LOAD_CLASSES = {
+    "vi": ("mdpax.solvers.value_iteration", "ValueIteration", {}),
+    "pi": ("mdpax.solvers.policy_iteration", "PolicyIteration", {}),
+    "rvi": ("mdpax.solvers.relative_value_iteration", "RelativeValueIteration", {"gain": ("info", "gain")}),
+    "pvi": ("mdpax.solvers.periodic_value_iteration", "PeriodicValueIteration", {"value_history": ("info", "value_history"), "history_index": ("info", "history_index"), "period": ("info", "period")}),
+    "sa": ("mdpax.solvers.semi_async_value_iteration", "SemiAsyncValueIteration", {"batch_order": ("info", "batch_order")}),
+}
+def setup_load(kind):
+    def setup(I):
+        modname, clsname, extra = LOAD_CLASSES[kind]
+        cls = I.load_module(modname).globals[clsname]
+        I.ghost["effects"] = []
+        attrs = {"values": ("own", "values"), "policy": ("own", "policy"), "iteration": z3.Int("own_iteration"), "checkpoint_dir": I.PathV("own_dir")}
+        attrs.update({k: ("own", k) for k in extra})
+        s = Obj(cls, attrs, label="hand_built_solver")
+        given = z3.Bool("step_given"); step = z3.Int("step_arg"); I.assume(step >= 1)
+        use_step = I.truth(given)
+        return Ctx(self=s, _args=[I.PathV("other_dir")], _kwargs=({"step": step} if use_step else {}), I=I, use_step=use_step, step=step, extra=extra)
+    return setup
 def post_load(c, q):
-    s = c.self; v = s.attrs["values"]; it = s.attrs["iteration"]; pol = s.attrs["policy"]
-    ok = isinstance(v, tuple) and v[0] == "restored" and v[3] == ("values",) and isinstance(it, tuple) and it[3] == ("info", "iteration") and isinstance(pol, tuple) and pol[3] == ("policy",)
+    s = c.self
+    want = dict({"values": ("values",), "policy": ("policy",), "iteration": ("info", "iteration")}, **c.extra)
+    ok = all(isinstance(s.attrs[k], tuple) and s.attrs[k][0] == "restored" and s.attrs[k][3] == path for k, path in want.items())      # every field from ITS OWN leaf of the restored tree
     news = eff(c, "cm.new"); rest = eff(c, "cm.restore")
     ok = ok and len(news) == 1 and "other_dir" in news[0][1][0] and len(rest) == 1 and "other_dir" in rest[0][1][0]
     if c.use_step: return z3.And(z3.BoolVal(bool(ok)), toz3(rest[0][1][1]) == c.step)
     return z3.BoolVal(bool(ok))
-contract(f"{CK}.load_checkpoint", setup=setup_load,
+contract(f"{CK}.load_checkpoint", scenarios=[(f"{k}.", setup_load(k)) for k in LOAD_CLASSES],
     raises=[("ValueError", lambda c, q: z3.BoolVal(len(eff(c, "cm.restore")) == 0 and not isinstance(c.self.attrs["values"], tuple) or c.self.attrs["values"][0] == "own"))],
     ensures={"every_state_field_assigned_from_the_given_directory_at_the_chosen_step": post_load,
              "own_checkpoint_dir_kept": lambda c, q: z3.BoolVal(c.self.attrs["checkpoint_dir"].s == "own_dir"),
